@@ -71,19 +71,25 @@ def run_state(case):
     c = mk(case["cap"], case["mlen"])
     obs, ok = [], True
     prev = [0, 0, case["cap"], case["mlen"], [0]]
-    for o in case["ops"]:
+    keyset, keys_problem = set(), None          # key preservation: live keys after an op = live keys before (+ the appended)
+    for j, o in enumerate(case["ops"]):
         if o[0] == "a":
             c = coo_append(c, (np.int32(o[1]), np.int32(o[2]), np.float32(o[3]), np.int64(o[4])))
+            keyset.add(int(o[4]))
         elif o[0] == "s":
             coo_sum_duplicates(c)
         else:
             merge_all_sum_duplicates(c)
         ob, good = observe(c, prev)
+        now = set(c.key[:int(c.ind[0])].tolist())
+        if now != keyset and keys_problem is None:
+            keys_problem = [j, sorted(keyset - now)[:5], sorted(now - keyset)[:5]]
+        keyset = now
         prev = ob
         obs.append(ob)
         ok = ok and good
     r, cc, v, k, _ = live(c)
-    return {"obs": obs, "final": [list(t) for t in zip(r, cc, v, k)], "wellformed": ok}
+    return {"obs": obs, "final": [list(t) for t in zip(r, cc, v, k)], "wellformed": ok, "keys_problem": keys_problem}
 
 
 def run_big(case):
